@@ -44,6 +44,9 @@ def check(run, prefix="O11"):
     from . import detectors as _DL
     _DL.ob_loop_exits(run, P + ".11", ['shredder'], 'every shard has to be encoded / restored: a loop that stops early leaves shreds missing')
     ob_decode_tail(run, P + ".10")
+    from . import detectors as _DF
+    _DF.ob_field_copies(run, P + ".16", ["types::slice::Slice::from_parts", "types::slice::Slice::header", "types::slice::Slice::deconstruct", "types::slice::ReconstructedSlice::from_parts"],
+                        'a restored slice equals the original in slot, index, last-slice flag, parent and data only if header and payload are taken apart and put together unchanged on both sides')
     ob_pets_withheld(run, P + ".15")
     ob_restored_size_bound(run, P + ".12")
     ob_payload_decode_gate(run, P + ".8")
